@@ -264,7 +264,8 @@ SPEC = {
              'order. (b) netlist + generated layout, parsed through from_bench_string / from_bench_file / the parser object fed lines with or without terminators (permuted declaration lines = use before definition, any letter case '
              'of INPUT/OUTPUT/operator names, BUFF/IFF, vdd alias, spaces around = , ( ), comment and blank lines, with or '
              'without final newline): parsed gate map, input order, output order and truth table equal the netlist the '
-             'text was printed from. Non-trivial: keyword-prefixed label, use before definition or an alias present.'),
+             'text was printed from. Non-trivial: keyword-prefixed label, use before definition or an alias present.'
+             ' Added during the build: labels that ARE a keyword or operator name, texts of 33-260 gates, n-ary gates with up to 13 operands, a text the parser has to refuse before the ordinary one, circuits whose inputs were fixed before writing, one file name overwritten again and again, the parser object fed line by line.'),
     'assumptions': ['only layout constructs the parser documents or its tests use are generated (no tabs, no leading blanks, no trailing comments)'],
     'subs': [Sub('roundtrip', rt_cases, check_roundtrip, {'quick': 2500, 'thorough': 200000}),
              Sub('layout', layout_cases, check_layout, {'quick': 2500, 'thorough': 200000})],
